@@ -139,23 +139,28 @@ fn val() -> impl Strategy<Value = Val> {
     (tail(16), size).prop_map(|(tail, size)| Val { tail, size })
 }
 
+/// Index with a bias towards element 0, so that the same (principal, secret) pair recurs in a history.
+fn idx() -> impl Strategy<Value = u16> {
+    prop_oneof![2 => Just(0u16), 3 => any::<u16>()]
+}
+
 fn p_req() -> impl Strategy<Value = P> {
-    prop_oneof![2 => Just(P::Root), 10 => any::<u16>().prop_map(P::U), 2 => any::<u16>().prop_map(P::G)]
+    prop_oneof![2 => Just(P::Root), 10 => idx().prop_map(P::U), 2 => idx().prop_map(P::G)]
 }
 fn p_admin() -> impl Strategy<Value = P> {
-    prop_oneof![5 => Just(P::Root), 5 => any::<u16>().prop_map(P::U), 1 => any::<u16>().prop_map(P::G)]
+    prop_oneof![5 => Just(P::Root), 5 => idx().prop_map(P::U), 1 => idx().prop_map(P::G)]
 }
 fn p_to() -> impl Strategy<Value = P> {
-    prop_oneof![1 => Just(P::Root), 12 => any::<u16>().prop_map(P::U), 12 => any::<u16>().prop_map(P::G)]
+    prop_oneof![1 => Just(P::Root), 12 => idx().prop_map(P::U), 12 => idx().prop_map(P::G)]
 }
 fn p_member_from() -> impl Strategy<Value = P> {
-    prop_oneof![6 => any::<u16>().prop_map(P::U), 4 => any::<u16>().prop_map(P::G)]
+    prop_oneof![6 => idx().prop_map(P::U), 4 => idx().prop_map(P::G)]
 }
 fn p_member_to() -> impl Strategy<Value = P> {
-    prop_oneof![1 => Just(P::Root), 4 => any::<u16>().prop_map(P::U), 16 => any::<u16>().prop_map(P::G)]
+    prop_oneof![1 => Just(P::Root), 4 => idx().prop_map(P::U), 16 => idx().prop_map(P::G)]
 }
 fn p_child() -> impl Strategy<Value = P> {
-    prop_oneof![8 => any::<u16>().prop_map(P::U), 3 => any::<u16>().prop_map(P::G)]
+    prop_oneof![8 => idx().prop_map(P::U), 3 => idx().prop_map(P::G)]
 }
 
 fn ttl(short: bool) -> BoxedStrategy<Ttl> {
@@ -177,7 +182,7 @@ fn pat() -> impl Strategy<Value = Pat> {
 }
 
 fn op(short: bool) -> BoxedStrategy<Op> {
-    let sec = any::<u16>;
+    let sec = idx;
     let base = prop_oneof![
         8 => (p_req(), sec(), val(), any::<bool>()).prop_map(|(req, sec, val, view)| Op::Set { req, sec, val, view }),
         16 => (p_req(), sec(), any::<bool>()).prop_map(|(req, sec, view)| Op::Get { req, sec, view }),
@@ -214,7 +219,7 @@ fn index_for(k: usize, len: usize) -> u16 {
 fn setup_op(short: bool) -> impl Strategy<Value = Op> {
     prop_oneof![
         5 => (p_member_from(), p_member_to()).prop_map(|(from, to)| Op::AddMember { from, to }),
-        5 => (p_to(), any::<u16>(), 0u8..3, ttl(short))
+        5 => (p_to(), idx(), 0u8..3, ttl(short))
             .prop_map(|(to, sec, lvl, ttl)| Op::Grant { req: P::Root, to, sec, lvl, ttl, view: false }),
     ]
 }
